@@ -203,6 +203,9 @@ func runC17(c *Ctx) {
 	// R9 (shared with C07.R6): the attribute bytes a set-attributes request hands to the server or to the handler are
 	// the bytes its decoder validated against the flags word
 	checkAttrsValidatedAtDecode(c, "R9")
+	// R10 (shared with C05.R1): what is reported for a served file is what the file system reports for *that* name —
+	// LSTAT asks os.Lstat, STAT os.Stat, FSTAT the open file
+	c.withOnlyKeys("R1", "R10", []string{"sshFxpLstatPacket", "sshFxpStatPacket", "sshFxpFstatPacket"}, func() { runC05(c) })
 
 	// ---------- R1 mode tables ----------
 	{
